@@ -141,9 +141,16 @@ typedef int (*MPT_TYPE(event_handler))(void *, MPT_STRUCT(event) *);
 MPT_STRUCT(command)
 {
 #ifdef __cplusplus
+	/* disable copy: the entry owns its handler (finalized in destructor) */
+# if __cplusplus >= 201103L
+	command(const command &) = delete;
+	command & operator =(const command &from) = delete;
+# else
 private:
-	command & operator =(const command &from); /* disable copy */
+	command(const command &);
+	command & operator =(const command &from);
 public:
+# endif
 	inline command() : id(0), cmd(0), arg(0)
 	{ }
 	inline ~command()
